@@ -56,8 +56,8 @@ LEVELS = {
         "note": TB + "PARTIAL: completeness theorem not yet proved; the marker arithmetic it rests on is C08 (proved).",
     },
     "C04": {
-        "text": "Proof (Coq): invalid ranges are refused, an accepted request yields exactly one single-epoch proof per epoch, inconsistent list lengths are rejected by the verifier. The audit walk over the latest tree and the auditor's rebuild are modelled and tied to the code; every epoch pair (incl. s = 0, non-adjacent, ending before the latest epoch) is audited against the published hashes after queried epochs.",
-        "note": TB + "PARTIAL: the frontier/substitution lemma (walk output rebuilds both root hashes) is not yet a theorem; decided by correspondence + oracle.",
+        "text": "Machine-checked theorem, end to end: after ANY sequence of publish requests, for every range s < e <= current epoch the server returns a proof, and that proof is accepted by audit_verify against the epoch hashes which the publishes returned for the epochs s..e (every history, every hash configuration; premises: VRF outputs are well-formed non-colliding 256-bit labels, C18). Proved at the tree level for any canonical tree: the tree as of an epoch is a restriction of the latest tree and equals the specification trie over the leaves inserted so far; the walk's output is the leaf set of a cut of the latest tree whose auditor-mode hash is that restriction's hash; a well-formed trie's auditor hash depends on its leaf set only, so the auditor's rebuild (proved to be the trie over exactly the given nodes) has it; the prefix-free check passes. Also: invalid ranges are refused, one single-epoch proof per epoch, inconsistent list lengths rejected. The audit walk and the auditor are tied to the code on every epoch pair of random histories (incl. s = 0, non-adjacent, ending before the latest epoch).",
+        "note": TB + "Premises as for C01 (VRF layer). The walk is proved with the model's fuel (300 > 256 + root).",
     },
     "C09": {
         "text": "Machine-checked theorem for ALL single-epoch and multi-epoch audit proofs (arbitrary node lists, not only those an honest server emits): if the auditor accepts a proof against the root hashes of well-formed trees, every leaf of the earlier tree - label, value and epoch - is a leaf of the later tree, and the later tree holds nothing else than the proof's inserted nodes stamped with the end epoch; over a range of epochs whatever the first root hash commits to every later one does - or a hash collision (experimental configuration: or a zero-digest preimage) has been exhibited. Proved through a refinement of the auditor's rebuild (fresh tree, one batch insertion over prefix-free labels of mixed lengths = the trie whose leaves are exactly the given nodes) and a structural reading of hash equality. Also proved: accepted proofs are prefix-free (the check added by the fix), inconsistent lists are rejected, the hash list is determined by the proof. The auditor is tied to the code on adversarial proofs with freely chosen end hashes; the defect that let a server drop committed leaves was found by this check and repaired.",
